@@ -854,7 +854,7 @@ static int op_dynrealm(int argc, char **argv, FILE *out) {
     }
     fputs(h_execlog_take(), out);
     if (h_dns_last_qtype() >= 0) {
-        fprintf(out, " dns:%d:", h_dns_last_qtype());
+        fprintf(out, " dns%s:%d:", h_dns_searched_take() ? "-with-search-list" : "", h_dns_last_qtype());
         puthex(out, (const uint8_t *)h_dns_last_qname(), strlen(h_dns_last_qname()));
     }
     {
@@ -868,7 +868,7 @@ static int op_dynrealm(int argc, char **argv, FILE *out) {
 static void put_lookups(FILE *out) {
     fputs(h_execlog_take(), out);
     if (h_dns_last_qtype() >= 0) {
-        fprintf(out, " dns:%d:", h_dns_last_qtype());
+        fprintf(out, " dns%s:%d:", h_dns_searched_take() ? "-with-search-list" : "", h_dns_last_qtype());
         puthex(out, (const uint8_t *)h_dns_last_qname(), strlen(h_dns_last_qname()));
     }
 }
